@@ -15,7 +15,7 @@ import os, re
 from vlib import *
 
 KNOWN_ID = "C15-json-utf8"
-KNOWN_OPEN = True   # treated as open even before the coordinator adds the entry to known_findings.json
+KNOWN_OPEN = False  # the entry is in known_findings.json
 KIND_ID = {"kv": 0, "ckv": 1, "disk": 2}
 KIND_NAME = {"kv": "KVTest", "ckv": "ConcurrentKVTest", "disk": "DiskKVTest"}
 IDX_KEY = b"disk_kv_applied_index"
